@@ -4,7 +4,7 @@
    notes/C16.fix-1.diff + fix-2.diff.  Full-strength statements are proved for [repaired]; for [pinned] the same
    statements are refuted by witness and proved under exactly the guard that excludes the failing class. *)
 From Coq Require Import ZArith List Bool.
-From BNP Require Import Base.Prims Model.C16 Proofs.C16 Corr.C16 Proofs.C16_link Gen.C16 Bridge.C16.
+From BNP Require Import Base.Prims Model.C16 Proofs.C16 Corr.C16 Proofs.C16_link Proofs.C16_depth Gen.C16 Bridge.C16.
 Import ListNotations.
 Open Scope Z_scope.
 
@@ -245,6 +245,117 @@ Proof.
 Qed.
 Print Assumptions C16_source_tie.
 
+(* ---------------------------------------------------------------------------------------------- phase 3 *)
+
+(* Modelling assumption made explicit: `.view(dtype)` on the little-endian host reads n bytes as sum b_i*256^i
+   (from_le) and np.int32 as its two's-complement value (signed32).  Under that reading read_field returns exactly
+   the integer whose little-endian encoding lies at the field's offset: from_le and le_bytes are mutually inverse on
+   byte strings, signed 32-bit and unsigned 16-bit fields are recovered, and signed32 is the inverse of reduction
+   modulo 2^32 on the int32 range. *)
+Theorem C16_read_field_little_endian :
+  (forall bs, Forall (fun b => 0 <= b < 256) bs -> le_bytes (length bs) (from_le bs) = bs)
+  /\ (forall n x, from_le (le_bytes n x) = x mod 256 ^ Z.of_nat n /\ Forall (fun b => 0 <= b < 256) (le_bytes n x))
+  /\ (forall pre post x s off, s + off = len pre -> -2147483648 <= x < 2147483648 ->
+        read_field (off, 4, true) (pre ++ le32 x ++ post) s = x)
+  /\ (forall pre post x s off, s + off = len pre -> 0 <= x < 65536 ->
+        read_field (off, 2, false) (pre ++ le16 x ++ post) s = x)
+  /\ (forall u, 0 <= u < 4294967296 -> -2147483648 <= signed32 u < 2147483648 /\ (signed32 u) mod 4294967296 = u).
+Proof.
+  exact (conj le_bytes_from_le (conj (fun n x => conj (from_le_le_bytes n x) (le_bytes_bytes n x))
+        (conj read_field_signed32 (conj read_field_uint16 signed32_range)))).
+Qed.
+Print Assumptions C16_read_field_little_endian.
+
+(* optional tag bytes: in any buffer the bytes between the end of the qualities and the end of the block are the
+   record's auxiliary bytes, whatever they are (never interpreted, never moved) *)
+Theorem C16_tag_bytes :
+  forall pre post r, rec_valid 65536 r ->
+    tags_region repaired (pre ++ encode_rec r ++ post) (len pre) (len pre + len (encode_rec r)) = b_tags r.
+Proof. exact (tags_at repaired 65536 (Z.le_refl _) cb_repaired). Qed.
+Print Assumptions C16_tag_bytes.
+
+(* write, then read the written file again — one statement.  For every valid file and every in-range index list
+   (filter, permutation, repeats): the writer's output is the spec encoding of the selected records behind the
+   byte-identical header; reading that stream back yields the header's reference names, the same header bytes for
+   the next replay, and a buffer whose decoded records are exactly the selected records' spec values (satisfying
+   the property's predicates), whose interval view is right, and whose tag bytes are the selected records' tag
+   bytes.  The whole write is the case idx = all. *)
+Theorem C16_write_then_reread :
+  forall text refs rs idx, header_valid text refs ->
+    Forall (fun r => rec_valid 65536 r /\ -1 <= b_ref r < len refs) rs ->
+    Forall (fun i => 0 <= i < len rs) idx ->
+    let sel := select rs idx in
+    let hdr := encode_header text refs in
+    exists w, write_selected hdr (buf_of rs) idx = Some w
+      /\ w = encode_file text refs sel
+      /\ read_file w = Some (map fst refs, hdr, buf_of sel)
+      /\ decode_buf current (map fst refs) (buf_of sel) = map (fun r => spec_orec current r (map fst refs)) sel
+      /\ all2 (rec_matches refs) sel (decode_buf current (map fst refs) (buf_of sel)) = true
+      /\ all2 (iv_matches refs) sel (intervals_buf current (map fst refs) (buf_of sel)) = true
+      /\ (forall (j : nat) r, nth_error sel j = Some r ->
+            exists s e, nth_error (bf_starts (buf_of sel)) j = Some s /\ nth_error (bf_ends (buf_of sel)) j = Some e
+              /\ e = s + len (encode_rec r) /\ tags_region current (bf_data (buf_of sel)) s e = b_tags r).
+Proof.
+  exact (fun text refs rs idx Hh Hg =>
+    write_then_reread repaired 65536 (Z.le_refl _) cb_repaired text refs rs Hh
+      (Forall_impl _ (fun r H => good_repaired refs r (proj1 H) (proj2 H)) Hg) idx).
+Qed.
+Print Assumptions C16_write_then_reread.
+
+Theorem C16_write_whole_then_reread :
+  forall text refs rs, header_valid text refs ->
+    Forall (fun r => rec_valid 65536 r /\ -1 <= b_ref r < len refs) rs ->
+    let hdr := encode_header text refs in
+    write_whole hdr (buf_of rs) = encode_file text refs rs
+    /\ read_file (write_whole hdr (buf_of rs)) = Some (map fst refs, hdr, buf_of rs)
+    /\ all2 (rec_matches refs) rs (decode_buf current (map fst refs) (buf_of rs)) = true.
+Proof.
+  exact (fun text refs rs Hh Hg =>
+    write_whole_then_reread repaired 65536 (Z.le_refl _) cb_repaired text refs rs Hh
+      (Forall_impl _ (fun r H => good_repaired refs r (proj1 H) (proj2 H)) Hg)).
+Qed.
+Print Assumptions C16_write_whole_then_reread.
+
+(* the end-of-file branch of read_chunk (/repo ccb2258: a raw read of 0 bytes with a pending tail) cannot be reached
+   on a valid BAM with k >= the largest record: whenever nothing is left to read the pending tail is empty (and no
+   record remains), and the reader computes exactly what the reader without that branch computes *)
+Theorem C16_eof_branch_unreachable :
+  (forall prepend rs, reader_inv [] prepend rs -> prepend = [] /\ rs = [])
+  /\ (forall k rs, 0 < k -> Forall fits rs -> Forall (fun r => len (encode_rec r) <= k) rs ->
+        read_chunks k (encode_recs rs)
+        = read_chunks_fuel_pre (S (S (length (encode_recs rs)))) k (encode_recs rs) [])
+  /\ (forall k rest prepend rs, 0 < k -> Forall fits rs -> Forall (fun r => len (encode_rec r) <= k) rs ->
+        reader_inv rest prepend rs -> k <= len rest ->
+        exists g rs2 tail, rs = g ++ rs2 /\ g <> []
+          /\ prepend ++ firstn (Z.to_nat k) rest = encode_recs g ++ tail /\ incomplete tail
+          /\ reader_inv (skipn (Z.to_nat k) rest) tail rs2).
+Proof.
+  exact (conj eof_pending_empty (conj (fun k rs Hk => eof_branch_unreachable k Hk rs)
+        (fun k rest prepend rs Hk => chunk_step k Hk rest prepend rs))).
+Qed.
+Print Assumptions C16_eof_branch_unreachable.
+
+(* unmapped records through BamIntervalBuffer / alignment_to_interval: the property's "none" for the reference
+   ('*'), the interval still position .. position + reference-consuming lengths (empty when there is no CIGAR),
+   strand from 0x10 *)
+Theorem C16_unmapped_interval :
+  forall pre post r (refs : list (list Z * Z)), rec_valid 65536 r -> b_ref r = -1 ->
+    interval_at current (map fst refs) (pre ++ encode_rec r ++ post) (len pre)
+    = {| i_chrom := Some [42]; i_start := b_pos r; i_stop := b_pos r + spec_reflen r;
+         i_name := b_name r; i_score := b_mapq r; i_strand := spec_strand r |}
+    /\ (b_cigar r = [] -> spec_reflen r = 0).
+Proof. exact unmapped_interval. Qed.
+Print Assumptions C16_unmapped_interval.
+
+(* the link, per case: if the generator's file is the spec encoding of valid records (file_ok, decided in Coq), the
+   case's inputs are in the property's range (in_scope: chunk sizes >= the largest record, index lists in range,
+   blocks fit 32 bits) and the written files end with the EOF block, then
+       implementation = model (model_ok)   ==>   the property holds on the case (spec_ok). *)
+Theorem C16_model_ok_implies_spec_ok :
+  forall c, file_ok c = true -> in_scope c -> model_ok c = true -> spec_ok c = true.
+Proof. exact model_ok_implies_spec_ok. Qed.
+Print Assumptions C16_model_ok_implies_spec_ok.
+
 (* non-vacuity: a concrete two-reference file with a 3-operation record of odd length, an unmapped record with tags
    and a 9-operation record without sequence meets the hypotheses; the executable model really decodes it, reads it
    in chunks of the largest record's size, and writes a reordered selection that is the spec encoding *)
@@ -279,3 +390,36 @@ Example C16_nonvacuous :
       end) = true
   /\ map (fun r => len (encode_rec r)) ex_recs = [59; 50; 74].
 Proof. vm_compute. repeat split. Qed.
+
+(* non-vacuity of the link: a concrete case (observations = what the model computes) is in scope, and all three
+   verdicts evaluate to true *)
+Definition ex_case : case :=
+  let text := [64; 72; 68; 10] in
+  let names := map fst ex_refs in
+  let whole := decode_buf current names (buf_of ex_recs) in
+  let sel := select ex_recs [2; 0] in
+  {| k_text := text; k_refs := ex_refs; k_recs := ex_recs; k_stream := encode_file text ex_refs ex_recs;
+     k_whole := whole; k_ivs := intervals_buf current names (buf_of ex_recs);
+     k_ivs2 := Some (intervals_buf current names (buf_of ex_recs));
+     k_chunked := [(74, [1; 1; 1], whole); (183, [3], whole)];
+     k_writes := [ {| w_mode := 1; w_k := 0; w_idx := [2; 0]; w_eof := true;
+                      w_stream := encode_file text ex_refs sel; w_reread := decode_buf current names (buf_of sel) |};
+                   {| w_mode := 0; w_k := 0; w_idx := [0; 1; 2]; w_eof := true;
+                      w_stream := encode_file text ex_refs ex_recs; w_reread := whole |} ] |}.
+Example C16_link_nonvacuous :
+  in_scope ex_case /\ file_ok ex_case = true /\ model_ok ex_case = true /\ spec_ok ex_case = true.
+Proof.
+  split; [|vm_compute; repeat split].
+  constructor.
+  - vm_compute. reflexivity.
+  - vm_compute. discriminate.
+  - repeat constructor; vm_compute; reflexivity.
+  - repeat constructor; cbn [fst]; try (vm_compute; reflexivity); try (vm_compute; discriminate).
+  - assert (forall i, In i [2; 0] \/ In i [0; 1; 2] -> 0 <= i < len (k_recs ex_case)) as Hi
+      by (intros i [H|H]; cbn in H; repeat destruct H as [H|H]; subst; try contradiction; vm_compute; split; congruence).
+    constructor; [|constructor; [|constructor]].
+    + split; [reflexivity|]. split; [apply Forall_forall; intros i H; apply Hi; left; exact H|].
+      split; [intros H; exfalso; apply H; reflexivity|intros _ H; exfalso; apply H; reflexivity].
+    + split; [reflexivity|]. split; [apply Forall_forall; intros i H; apply Hi; right; exact H|].
+      split; [intros _; vm_compute; reflexivity|intros H; exfalso; apply H; reflexivity].
+Qed.
